@@ -1,8 +1,11 @@
 """C05 Dependencies gate readiness; failed parents cancel children.
 
-  R1  submission: a job is inserted Ready only on the path `first update and no parents`; n_pending_parents receives the number of
-      parents; every parent id yields a job_parents row (batch, job, parent); the edge insert rejects a repeated parent id (the count
-      is the list length, the rows are keyed: a tolerant insert leaves a surplus that is never decremented)
+  R1  submission (engines/c05submit.py; nothing matched by local name, module-level helpers inlined): the per-job effect of the submission loop as
+      a TRUTH TABLE over the atoms it tests (first update? absolute parent list empty? in-update parent list empty? + opaque atoms): a job is inserted
+      Ready only when `first update and no parents`, otherwise Pending; n_pending_parents (linear form over the lengths of the request's lists) equals the
+      number of job_parents rows; every parent id yields a row (batch, job, parent) - no filter / slice / one-shot iterator between the list and the
+      insert; the edge insert rejects a repeated parent id.  if/else, defaults + guarded override, conditional expressions, boolean locals, nested
+      ifs, loop vs comprehension vs extend give the same table.  A verdict that hinges on an opaque atom is declined, never reported.
   R2  completion of a parent - COMPOSITE effect of the effective mark_job_complete (called procedures inlined) on the dependents, by
       ABSTRACT execution (engines/jobgraphfacts.py): ids are opaque symbols, n_pending_parents of the dependent is a symbolic count
       whose class ({1, >= 2, ..}) is split exactly where the code compares it, new_state / the job's prior state / attempt-id relation /
@@ -21,7 +24,9 @@
       the Python constants bound to its `%s` parameters / f-string holes (engines/c0506facts.py part 1) - is classified by a truth table over
       (always_run, cancelled, state) and a three-valued evaluation of the guards on its call path: none may select always_run = 0 AND cancelled = 1 or
       a job that is not Ready; Ready always-run jobs are selected whatever cancelled / the group flag; ordinary jobs only while the group's ancestor
-      walk found no cancellation [that part shared with C07-R5]; keyed by the loop's group.  Declined when the jobs could be filtered in Python.
+      walk found no cancellation [that part shared with C07-R5]; keyed by the loop's group.  Guards = enclosing ifs AND guard clauses in front of the
+      query (`if cancelled: continue`), with single-definition locals expanded.  A FAIL needs a query that DEFINITELY runs in the offending case;
+      guards / keys the analysis cannot evaluate are declined.  Declined when the jobs could be filtered in Python.
   R5  lossless flow of the parent ids from the request body to the insert (engines/c0506facts.py part 2): `absolute_parent_ids` (legacy `parent_ids`)
       and `in_update_parent_ids` are numbered in different id spaces (in-update k = job start + k - 1).  Abstract domain of list expressions
       (source, shift, concatenation, duplicate removal with the scope of its memory, filter, slice, or-selection, removal): (a) who-may-touch: every
@@ -52,7 +57,7 @@ META = dict(
          'decrement-by-one exactly with the parent\'s terminal transition, Ready iff last parent, failure propagation, terminal-state complement, untouched bystanders.',
     note='MySQL evaluates UPDATE assignments left to right (relied upon by the repository for IF(n_pending_parents = 1, ..) before the decrement). Triggers are checked not to write the '
          'modelled tables. Trusted: SQL parser, the abstract executor (engines/jobgraphfacts.py).',
-    technique='static analysis: abstract execution of extracted SQL routine bodies over symbolic values with explicit case splits + normal forms of row selections + Python def-use at the submission site '
+    technique='static analysis: abstract execution of extracted SQL routine bodies over symbolic values with explicit case splits + normal forms of row selections + truth table over the atoms of the submission loop (helpers inlined, def-use resolved) '
               '+ abstract domain of list expressions (lossless flow) + truth tables over flag valuations of SQL selections instantiated per call site',
     design_ref='DESIGN.md §3 C05',
 )
@@ -546,7 +551,7 @@ def r5(ctx: Ctx) -> None:
 def run(ctx: Ctx) -> None:
     ctx.explanation = ('Clause-by-clause check of the three writers of dependency state, of the path the parent ids take from the request to the insert, and of the scheduler selections that consume the cancelled flag '
                        '(seen through query helpers).')
-    ctx.rule('R1', 'submission: Ready only for first-update jobs without parents; n_pending_parents = len(parent_ids); one job_parents row per parent, duplicates rejected', 5)
+    ctx.rule('R1', 'submission (truth table over first-update / parent-lists-empty atoms of the job loop, helpers inlined): Ready only for first-update jobs without parents; n_pending_parents = number of job_parents rows; one row per parent (no filter, no one-shot iterator), duplicates rejected', 5)
     ctx.rule('R2', 'parent completion, composite effect of mark_job_complete on the dependents (abstract execution): with the job\'s own terminal transition and only then: count - 1, Ready iff last pending parent, cancelled iff parent not Success (flag irrelevant for always_run), nothing but this job\'s children touched', 5)
     ctx.rule('R3', 'commit recount, composite effect of commit_batch_update on a job of the update (abstract execution over parent count classes): pending = non-terminal parents, Ready iff 0, cancelled iff a finished parent failed; per child; only the update\'s own jobs; only this batch', 4)
     ctx.rule('R4', 'schedulers start non-always-run jobs only with cancelled = 0; always-run jobs regardless', 4)
